@@ -95,6 +95,12 @@ Qed.
 (* ---------------------------------------------------------------- the body of every write operation is a scheduled step *)
 Definition is_query (o : op) : bool := match o_kind o with OFind | OFirst => true | _ => false end.
 
+Lemma goodk_not_by_value : forall o ks, goodk (o_shape o) ks -> by_value_struct o = false.
+Proof.
+  intros o ks (W & _). unfold by_value_struct, wf_shape in *.
+  destruct (sh_cont (o_shape o)); try reflexivity. rewrite W. reflexivity.
+Qed.
+
 Lemma run_body_step : forall o s, op_ok o -> is_query o = false -> keys s = rkeys (o_recs o) ->
   hstep (o_fails o) s (run_body o s) (gated s (sched_log (op_sched o) (s_k s) (o_fails o))).
 Proof.
@@ -102,6 +108,7 @@ Proof.
   assert (TG : map fst (keys s) = map m_tag (o_recs o)) by (rewrite K; apply tags_rkeys).
   destruct (o_kind o) eqn:KD; try discriminate; try contradiction; destruct OK as (G & AO & XD); rewrite <- K in G.
   - (* Create *)
+    rewrite (goodk_not_by_value o _ G).
     rewrite create_pipeline_eq, <- TG.
     apply (cu_body_step (op_cx o (o_skip o) DSelf)); try assumption; try apply U.
     intros s0 G0. apply stmt_create_step. exact G0.
@@ -125,6 +132,7 @@ Proof.
       apply (cu_body_step cU); try assumption; try apply U.
       intros s0 G0. apply stmt_update_step. exact G0. }
     destruct (is_nil (s_err s1) && negb (has_row TRecs (m_tag r) (s_tbl s))); [|exact UP].
+    rewrite (goodk_not_by_value o _ G).
     (* the upsert fallback runs with SkipHooks *)
     set (cF := op_cx o true DSelf).
     assert (K1 : keys s1 = keys s) by (destruct UP; assumption).
@@ -315,13 +323,20 @@ Proof.
   unfold run_body.
   destruct H as [H|H].
   - assert (SK : forall d, c_skip (op_cx o (o_skip o) d) = true) by (intro d; cbn; exact H).
-    destruct (o_kind o); try (rewrite run_pipeline_skip_hooks by apply SK; try exact H0; reflexivity).
+    destruct (o_kind o).
+    + destruct (by_value_struct o); [exact H0 | rewrite run_pipeline_skip_hooks by apply SK; exact H0].
     + destruct (sh_cont (o_shape o)); try (rewrite run_pipeline_skip_hooks by apply SK; exact H0).
       unfold run_save_struct. destruct (o_recs o) as [|r rs]; [exact H0|].
       destruct (m_id r =? 0); [rewrite run_pipeline_skip_hooks by apply SK; exact H0|].
-      match goal with |- context [if ?b then _ else _] => destruct b end;
-        rewrite ?run_pipeline_skip_hooks by (try apply SK; reflexivity); exact H0.
+      match goal with |- context [if ?b then _ else _] => destruct b end.
+      * destruct (by_value_struct o); [cbn [s_tr add_err set_err] |];
+          rewrite ?run_pipeline_skip_hooks by (try apply SK; reflexivity); exact H0.
+      * rewrite run_pipeline_skip_hooks by apply SK. exact H0.
+    + rewrite run_pipeline_skip_hooks by apply SK. exact H0.
     + rewrite run_pipeline_skip_hooks by reflexivity. exact H0.
+    + rewrite run_pipeline_skip_hooks by apply SK. exact H0.
+    + rewrite run_pipeline_skip_hooks by apply SK. exact H0.
+    + rewrite run_pipeline_skip_hooks by apply SK. exact H0.
     + rewrite run_create_in_batches_skip_hooks by exact H. exact H0.
   - rewrite H. rewrite run_pipeline_skip_hooks by reflexivity. exact H0.
 Qed.
